@@ -156,7 +156,12 @@ def gen_case(rng, cli, big=False):
             defs = [x + rng.choice(["", "=1"]) for x in FLAGS if rng.random() < 0.4]
             entries.append([f, defs, [d for d in incdirs if rng.random() < 0.85]])
         plats.append([name, entries])
-    return {"files": files, "platforms": plats, "exclude": exclude, "levels": rng.randint(1, 4), "cli": bool(cli)}
+    case = {"files": files, "platforms": plats, "exclude": exclude, "levels": rng.randint(1, 4), "cli": bool(cli)}
+    if nplat >= 2 and rng.random() < 0.3:
+        # -p selection: the front ends get `-p name ...` on the full analysis file; the in-process
+        # attribution (input of M and S) is computed for the selected platforms only
+        case["select"] = rng.sample([n for n, _ in plats], rng.randint(1, nplat - 1))
+    return case
 
 
 SMALL_CONTENT = ["int a;\nint b;\n", "int a;\n#ifdef F0\nint g;\n#else\nint c;\nint d;\n#endif\n", "// only a comment\n"]
@@ -396,7 +401,7 @@ class C06(Check):
     rule = ("random code bases of 1-9 source/header files in up to 4 directory levels with nested balanced conditionals, "
             "includes, defines, comments and continuations, unused files and headers, excluded files, non-source files, "
             "file symlinks (source and non-source names), dangling and directory symlinks, 0-4 platforms each with 0-3 compile "
-            "commands and random -D sets; an exhaustive block of every placement of <= 3 files over 3 positions x 3 contents x "
+            "commands and random -D sets, in 30 % of the multi-platform cases a -p selection of a proper subset; an exhaustive block of every placement of <= 3 files over 3 positions x 3 contents x "
             "3 platform layouts x link/no link; a malformed stream (unbalanced files, empty code base, missing compiled file). "
             "A case is non-trivial if the setmap has >= 2 platform sets, some directory has >= 2 files below it and at least one "
             "file or line is unused")
@@ -461,7 +466,8 @@ class C06(Check):
                 args = ["gcc"] + [f"-D{d}" for d in defs] + [f"-I{root / i}" for i in incs] + ["-c", str(root / f)]
                 db.append({"file": str(root / f), "directory": str(root), "arguments": args})
             (root / f"db_{name}.json").write_text(json.dumps(db))
-            merged += db
+            if not case.get("select") or name in case["select"]:
+                merged += db
             toml += [f"[platform.{name}]", f'commands = "db_{name}.json"']
         (root / "analysis.toml").write_text("\n".join(toml) + "\n")
         (root / "all.json").write_text(json.dumps(merged))
@@ -486,11 +492,12 @@ class C06(Check):
 
             def run(cmd, cwd):
                 return subprocess.run(cmd, cwd=cwd, env=env, capture_output=True, text=True, timeout=300)
-            jobs["summary"] = pool.submit(run, py + ["-m", "codebasin", "-R", "summary", "analysis.toml"], root)
+            psel = [x for n in case.get("select") or [] for x in ("-p", n)]
+            jobs["summary"] = pool.submit(run, py + ["-m", "codebasin", "-R", "summary"] + psel + ["analysis.toml"], root)
             vs = [0, 3] if self._parity(case) else [2, 1]     # a function of the case, so a replay runs the same variants
             for v in vs:
                 prune, lev = VARIANTS[v]
-                cmd = py + ["-m", "codebasin.tree"] + (["--prune"] if prune else []) + (["-L", str(k)] if lev else []) + ["analysis.toml"]
+                cmd = py + ["-m", "codebasin.tree"] + (["--prune"] if prune else []) + (["-L", str(k)] if lev else []) + psel + ["analysis.toml"]
                 jobs[f"tree{v}"] = pool.submit(run, cmd, root)
             cmd = py + ["-m", "codebasin.coverage", "compute", "-S", str(root), "-o", str(base / "cov_cli.json")]
             for x in case["exclude"]:
@@ -531,14 +538,15 @@ class C06(Check):
         from codebasin.coverage import __main__ as covmain
         k = case["levels"]
         self.hist["front_inproc_cases"] = self.hist.get("front_inproc_cases", 0) + 1
-        rc, out = _Capture(root, "codebasin", base / "out_summary.txt").run(cbmain._main, ["-R", "summary", "analysis.toml"])
+        psel = [x for n in case.get("select") or [] for x in ("-p", n)]
+        rc, out = _Capture(root, "codebasin", base / "out_summary.txt").run(cbmain._main, ["-R", "summary"] + psel + ["analysis.toml"])
         ans["summary_cli"] = parse_summary(out) if rc == 0 else ["Exit", rc, ""]
         ans["tree_cli"] = {}
         # random cases: all four (prune, -L) variants; the exhaustive small block: two, alternating
         vs = [0, 1, 2, 3] if not case.get("small") else ([0, 3] if len(case["files"]) % 2 else [2, 1])
         for v in vs:
             prune, lev = VARIANTS[v]
-            argv = (["--prune"] if prune else []) + (["-L", str(k)] if lev else []) + ["analysis.toml"]
+            argv = (["--prune"] if prune else []) + (["-L", str(k)] if lev else []) + psel + ["analysis.toml"]
             rc, out = _Capture(root, "codebasin.tree", base / "out_tree.txt").run(lambda: cbtree.cli(argv), argv)
             ans["tree_cli"][str(v)] = parse_tree(out, root) if rc == 0 else ["Exit", rc, ""]
         argv = ["compute", "-S", str(root), "-o", str(base / "cov_cli.json")]
@@ -558,6 +566,8 @@ class C06(Check):
             cb = codebasin.CodeBase(str(root), exclude_patterns=list(case["exclude"]))
             configuration = {}
             for name, _ in case["platforms"]:
+                if case.get("select") and name not in case["select"]:
+                    continue
                 configuration[name] = config.load_database(str(root / f"db_{name}.json"), str(root))
             state = finder.find(str(root), cb, configuration)
             files = list(cb)
@@ -633,6 +643,8 @@ class C06(Check):
         dp = max([len(a[0]) for a in attr] or [0])
         self.hist["depth"][dp] = self.hist["depth"].get(dp, 0) + 1
         self.hist["links"] += sum(1 for a in attr if a[1])
+        if case.get("select"):
+            self.hist["select_cases"] = self.hist.get("select_cases", 0) + 1
         self.hist["big_files"] += sum(1 for a in attr if sum(n[1] for n in a[4]) >= 1000)
         return {"status": "Ok", "hyp": {"wf": wf, "links_ok": links_ok}, "attr": attr, "U": U, "setmap": sm,
                 "summary_ip": summary_ip, "dump": dump, "files_ip": files_ip, "cov_ip": cov_ip,
@@ -815,7 +827,11 @@ class C06(Check):
                  or any(n.startswith(f[2] + "/") for n in names)]
         names = {f[0] for f in files}
         plats = [[n, [e for e in es if e[0] in names]] for n, es in case["platforms"]]
-        return {"files": files, "platforms": plats, "exclude": case["exclude"], "levels": case["levels"], "cli": case["cli"]}
+        out = {"files": files, "platforms": plats, "exclude": case["exclude"], "levels": case["levels"], "cli": case["cli"]}
+        sel = [n for n in case.get("select") or [] if n in {p[0] for p in plats}]
+        if sel:
+            out["select"] = sel
+        return out
 
     def shrink(self, case, still_fails):
         cur = case
